@@ -741,7 +741,7 @@ def aliasing(x, muts):
         h = x.xs[0].name
         if h in ASSIGN:
             return True
-        if h in ("do", "upscope") and len(x.xs) > 1:
+        if h in ("do", "upscope", "let") and len(x.xs) > 1:
             return aliasing(x.xs[-1], muts)
         if h in ("def", "var"):
             return False
@@ -851,7 +851,7 @@ def collect_muts(forms):
 # ---------------------------------------------------------------------- contexts
 HDR = "(def a 3) (var m 10) (def b @[1 2 3])"
 NFAR = 262
-NEDGE = 236
+NEDGE = 233
 
 
 def far_defs(n=NFAR):
@@ -871,7 +871,7 @@ def print_block(stmts, pre, res):
     return p.text()
 
 
-CONTEXTS = ["top", "fn_tail", "fn_used", "fn_dropped", "loop", "far", "far_tail", "upvalue", "far_upvalue", "branch", "arg", "edge"]
+CONTEXTS = ["top", "fn_tail", "fn_used", "fn_dropped", "loop", "far", "far_tail", "upvalue", "far_upvalue", "branch", "arg", "edge", "edge1", "edge2"]
 
 WRAP = {
     # ctx: (head line, pre line, post)
@@ -888,13 +888,16 @@ WRAP = {
     "arg": ("(RES ((fn [] " + HDR + " (first (tuple (do", "#", ") 1 2)))))"),
     # locals of E straddle the reserved temporaries 0xF0-0xFF and the near/far boundary
     "edge": ("(RES ((fn [] %EDGE% " + HDR, "#", ")))"),
+    # 239 / 235 live vars (measured: the counts at which a near/far boundary mutant of janetc_regnear shows most often)
+    "edge1": ("(RES ((fn [] %EDGE1% " + HDR, "#", ")))"),
+    "edge2": ("(RES ((fn [] %EDGE2% " + HDR, "(def r_", ") r_)))"),
 }
 
 
 def embed(ctx, stmts, res):
     """returns (source text, e0): E starts on line e0+1, so relative line = line - e0 (1-based inside E)."""
     head, pre, post = WRAP[ctx]
-    head = head.replace("%FAR%", far_defs()).replace("%EDGE%", far_defs(NEDGE))
+    head = head.replace("%FAR%", far_defs()).replace("%EDGE%", far_defs(NEDGE)).replace("%EDGE1%", far_defs(NEDGE + 6)).replace("%EDGE2%", far_defs(NEDGE + 2))
     return head + "\n" + print_block(stmts, pre, res) + "\n" + post + "\n", 1
 
 
@@ -929,4 +932,8 @@ def context_forms(ctx, stmts, res):
         return [S("RES", S(S("fn", B(), *hdr, S("first", S("tuple", S("do", *st, res), 1, 2)))))]
     if ctx == "edge":
         return [S("RES", S(S("fn", B(), *fard[:NEDGE], *hdr, *st, res)))]
+    if ctx == "edge1":
+        return [S("RES", S(S("fn", B(), *fard[:NEDGE + 6], *hdr, *st, res)))]
+    if ctx == "edge2":
+        return [S("RES", S(S("fn", B(), *fard[:NEDGE + 2], *hdr, *st, S("def", "r_", res), "r_")))]
     raise ValueError(ctx)
